@@ -225,6 +225,10 @@ pub struct Exch {
     pub refused: bool,
     pub got_100: bool,
     pub resp: Option<RespObs>,
+    /// first failure of an oracle that another property owns and after which the model can still
+    /// follow the exchange: kept, the search goes on so that this property's own oracles can judge
+    /// the consequences; reported (as undecided) only when nothing in scope fails on the way
+    pub deferred: Option<(String, String)>,
     pub resp_body_out: usize,
     pub through_redirect: bool,
     pub redirect_verdict: Option<(bool, Option<&'static str>)>,
@@ -260,6 +264,7 @@ impl Exch {
             refused: false,
             got_100: false,
             resp: None,
+            deferred: None,
             resp_body_out: 0,
             through_redirect: false,
             redirect_verdict: None,
@@ -344,6 +349,19 @@ impl Exch {
 
     fn k(&self, site: &str, class: &str) -> String {
         format!("{}:{}:{}", self.cfg.prop, site, class)
+    }
+
+    /// Failure of an oracle whose continuation is well defined: hard when this property owns it,
+    /// otherwise deferred (see `deferred`).
+    fn soft(&mut self, key: String, what: String) -> R {
+        let base = key.strip_prefix(&format!("{}:", self.cfg.prop)).unwrap_or(&key).to_string();
+        if (self.cfg.scope)(&base) {
+            return Err((key, what));
+        }
+        if self.deferred.is_none() {
+            self.deferred = Some((key, what));
+        }
+        Ok(())
     }
 
     fn head_complete(&self) -> bool {
@@ -604,7 +622,8 @@ impl Exch {
         let want = head::parse(&m.head_bytes()).and_then(|h| expected_obs(&h)).map_err(|e| (self.k("harness", "refparse"), e))?;
         let got = observe_response(&resp);
         if got != want {
-            return Err((self.k("try-response", "wrong-response"), format!("response differs from the reference parse: got {:?} want {:?}", got, want)));
+            // the model follows the message on the wire, not the returned value: it can go on
+            self.soft(self.k("try-response", "wrong-response"), format!("response differs from the reference parse: got {:?} want {:?}", got, want))?;
         }
         if !ready {
             return Err((self.k("try-response", "not-ready"), "response returned but can_proceed() is false".into()));
@@ -901,7 +920,7 @@ impl Sys for Exch {
 
     fn key(&self) -> String {
         format!(
-            "{}|arr={}|con={}|msg={}|ho={}|bi={}|bd={}|ref={}|g100={}|resp={}|rbo={}|red={:?}",
+            "{}|arr={}|con={}|msg={}|ho={}|bi={}|bd={}|ref={}|g100={}|resp={}|rbo={}|red={:?}|def={}",
             self.flow.fp(),
             self.arrived,
             self.consumed,
@@ -914,6 +933,7 @@ impl Sys for Exch {
             self.resp.is_some(),
             self.resp_body_out,
             self.redirect_verdict,
+            self.deferred.is_some(),
         ) + &format!("|fol={}", self.followed)
     }
 
@@ -1092,39 +1112,42 @@ impl Sys for Exch {
 
     fn final_check(&self) -> R {
         let AnyFlow::Cleanup(f) = &self.flow else { unreachable!() };
+        // every final oracle is evaluated; one that this property owns is reported in preference to
+        // one it does not own, and a deferred failure only if nothing else failed
+        let mut errs: Vec<(String, String)> = Vec::new();
         let conds = self.expected_conds();
         let must = f.must_close_connection();
         let reason = f.close_reason();
         if must != conds.must_close() {
-            return Err((self.k("verdict", if must { "closes-reusable" } else { "reuses-must-close" }), format!("must_close_connection() = {} but the close conditions are {:?}", must, conds)));
+            errs.push((self.k("verdict", if must { "closes-reusable" } else { "reuses-must-close" }), format!("must_close_connection() = {} but the close conditions are {:?}", must, conds)));
         }
         if reason.is_some() != must {
-            return Err((self.k("verdict", "reason-presence"), format!("must_close = {} but close_reason() = {:?}", must, reason)));
+            errs.push((self.k("verdict", "reason-presence"), format!("must_close = {} but close_reason() = {:?}", must, reason)));
         }
         if let Some(r) = reason {
             if !conds.reason_ok(r) {
-                return Err((self.k("verdict", "reason-names-false-condition"), format!("close_reason() = {:?} but the conditions are {:?}", r, conds)));
+                errs.push((self.k("verdict", "reason-names-false-condition"), format!("close_reason() = {:?} but the conditions are {:?}", r, conds)));
             }
         }
         if let Some(rv) = self.redirect_verdict {
             if rv != (must, reason) {
-                return Err((self.k("verdict", "redirect-vs-cleanup"), format!("redirect state said {:?}, cleanup says {:?}", rv, (must, reason))));
+                errs.push((self.k("verdict", "redirect-vs-cleanup"), format!("redirect state said {:?}, cleanup says {:?}", rv, (must, reason))));
             }
         }
         let status = self.cfg.final_msg().status;
         let want_redirect = (300..400).contains(&status) && status != 304;
         if self.through_redirect != want_redirect {
-            return Err((self.k("graph", "redirect-state"), format!("status {}: passed through the redirect state = {}", status, self.through_redirect)));
+            errs.push((self.k("graph", "redirect-state"), format!("status {}: passed through the redirect state = {}", status, self.through_redirect)));
         }
         // everything sent / received exactly
         let want_body = if self.refused { 0 } else { self.cfg.body.len() };
         if self.cfg.req.body_due() && self.body_in != want_body {
-            return Err((self.k("final", "request-body-incomplete"), format!("{} of {} request body bytes were sent (refused = {})", self.body_in, want_body, self.refused)));
+            errs.push((self.k("final", "request-body-incomplete"), format!("{} of {} request body bytes were sent (refused = {})", self.body_in, want_body, self.refused)));
         }
         let framing = self.cfg.expected_framing();
         let want_consumed = if framing == Framing::Close && self.body_entered { self.cfg.stream.len() } else { self.body_end() };
         if self.consumed != want_consumed {
-            return Err((self.k("final", "consumed-total"), format!("exchange consumed {} server bytes but its messages are {} bytes long (the next exchange would start at the wrong byte)", self.consumed, want_consumed)));
+            errs.push((self.k("final", "consumed-total"), format!("exchange consumed {} server bytes but its messages are {} bytes long (the next exchange would start at the wrong byte)", self.consumed, want_consumed)));
         }
         // On a reusable connection the next exchange starts at the first byte of the next response:
         // run a complete second exchange on the bytes that remain.
@@ -1142,13 +1165,24 @@ impl Sys for Exch {
             match r {
                 Ok(Ok(())) => {}
                 Ok(Err(e)) | Err(e) => {
-                    return Err((self.k("session", "next-exchange-desynchronised"), format!("the connection is reported reusable but the next exchange, started at stream offset {}, does not see the next response ({}): remaining bytes {:?}", self.consumed, e, show(&rest[..rest.len().min(60)]))));
+                    errs.push((self.k("session", "next-exchange-desynchronised"), format!("the connection is reported reusable but the next exchange, started at stream offset {}, does not see the next response ({}): remaining bytes {:?}", self.consumed, e, show(&rest[..rest.len().min(60)]))));
                 }
             }
         }
         let want_payload = if self.body_entered { self.cfg.final_msg().payload().len() } else { 0 };
         if self.resp_body_out != want_payload {
-            return Err((self.k("final", "response-body-incomplete"), format!("{} of {} response body bytes delivered", self.resp_body_out, want_payload)));
+            errs.push((self.k("final", "response-body-incomplete"), format!("{} of {} response body bytes delivered", self.resp_body_out, want_payload)));
+        }
+        let prefix = format!("{}:", self.cfg.prop);
+        let owned = |k: &str| (self.cfg.scope)(k.strip_prefix(&prefix).unwrap_or(k));
+        if let Some(e) = errs.iter().find(|e| owned(&e.0)) {
+            return Err(e.clone());
+        }
+        if let Some(e) = errs.into_iter().next() {
+            return Err(e);
+        }
+        if let Some(d) = &self.deferred {
+            return Err(d.clone());
         }
         Ok(())
     }
